@@ -389,10 +389,19 @@ def rule_e(res: Results, idx: Index) -> None:
         bind_stmt = enclosing_stmt(binds_iter[0])
         # on the T edge the Add must be passed, and the bound value must be (derived from) the Add's target
         passed = g.must_pass_nodes(g.nodes_of(bind_stmt), g.nodes_of(good_add)) or not (g.reachable([y for n, lab in t_edges for y, l2 in g.succ[n] if l2 == "T"], removed_nodes=set(g.nodes_of(good_add))) & set(g.nodes_of(bind_stmt)))
+        # ... and the only way around the Add is the `lower == 0` edge of such a guard: no other condition (index dtype,
+        # precision mode, …) may skip the offset
+        f_edges = [(n, "F") for gd in guards for n in g.nodes_of(gd)]
+        around = g.reachable([g.ENTRY], removed_nodes=set(g.nodes_of(good_add)), removed_edges=f_edges) & set(g.nodes_of(bind_stmt))
+        if passed and around:
+            res.violation("R-C06e", f"{rel}:{good_add.lineno}", key, "the binding of the body's index variable can be reached without the offset `iteration + lower` on a path that does not take the `lower == 0` edge: another condition skips the offset, so fori_loop(lower != 0, …) bodies see indices starting at 0 there", body_fn.qualname)
+            passed = None
         tgt = good_add.targets[0].id if isinstance(good_add.targets[0], ast.Name) else None
         bound = binds_iter[0].args[1] if len(binds_iter[0].args) > 1 else None
         flows = tgt is not None and bound is not None and tgt in (dub.closure(names_in(bound)) | names_in(bound))
-        if passed and flows:
+        if passed is None:
+            pass
+        elif passed and flows:
             res.ok("R-C06e", f"{rel}:{good_add.lineno}", key, "iteration + lower is computed on the lower != 0 branch and is what the body's index variable is bound to", body_fn.qualname)
         else:
             res.violation("R-C06e", f"{rel}:{good_add.lineno}", key, "the offset `iteration + lower` is not on every lower != 0 path to the binding of the body's index variable (or is not the bound value)", body_fn.qualname)
